@@ -37,15 +37,15 @@ func (t *fnTrans) setupParams() {
 		isRecv := i == 0 && fn.Signature.Recv() != nil
 		switch p.Type().Underlying().(type) {
 		case *types.Pointer, *types.Map, *types.Chan, *types.Signature:
-			if isRecv || !(t.contract != nil && t.contract.nullable[p.Name()]) {
+			if isRecv || !(t.contract != nil && t.contract.nullable[t.g.contractName(t.key, p.Name())]) {
 				if isRecv || t.g.ann != nil {
-					if !(t.contract != nil && t.contract.nullable[p.Name()]) {
+					if !(t.contract != nil && t.contract.nullable[t.g.contractName(t.key, p.Name())]) {
 						t.assume("(not (= " + n + " 0))")
 					}
 				}
 			}
 		case *types.Interface:
-			if !(t.contract != nil && t.contract.nullable[p.Name()]) {
+			if !(t.contract != nil && t.contract.nullable[t.g.contractName(t.key, p.Name())]) {
 				if _, isErr := p.Type().(*types.Named); !(isErr && p.Type().String() == "error") {
 					// interface parameters other than error are trusted non-nil
 					if types.TypeString(p.Type(), nil) != "interface{}" && types.TypeString(p.Type(), nil) != "any" {
